@@ -471,6 +471,27 @@ func genCase(t *rapid.T) caseA {
 		}
 	}
 	c.Caller = rapid.SampledFrom([]string{"bob", "bob", "carol", "carol", "alice", "dave"}).Draw(t, "caller")
+	if c.Mode == "policy" && c.Spec.Bucket == "A" && (c.Caller == "bob" || c.Caller == "carol") && rapid.IntRange(0, 4).Draw(t, "aimed") == 0 {
+		// a policy aimed at this very request: a broad Allow and a Deny whose resource is derived from the key the
+		// request names (the key, its directory, a pattern over it) - the Deny must bind whatever shape the key has
+		k := strings.TrimPrefix(c.Spec.Key, "=")
+		narrow := []string{k, k + "*", "*" + k[1:], k[:len(k)-1] + "?"}
+		if i := strings.LastIndex(strings.TrimSuffix(k, "/"), "/"); i >= 0 {
+			narrow = append(narrow, k[:i+1]+"*", k[:i]+"/?*")
+		}
+		if strings.HasSuffix(k, "/") {
+			narrow = append(narrow, k+"*", k+"*", strings.TrimSuffix(k, "/")+"?")
+		}
+		who := rapid.SampledFrom([][]string{{c.Caller}, {"*"}, {"bob", "carol"}}).Draw(t, "aimed_principal")
+		allow := model.Statement{Effect: "Allow", Principals: who, Actions: []string{"s3:*"}, Resources: []string{bktA, bktA + "/*"}}
+		deny := model.Statement{Effect: "Deny", Principals: []string{c.Caller}, Actions: []string{rapid.SampledFrom([]string{"s3:*", "s3:Get*", "s3:Put*", "s3:Delete*", "s3:GetObject", "s3:PutObject", "s3:DeleteObject", "s3:PutObjectTagging", "s3:GetObjectTagging"}).Draw(t, "aimed_action")},
+			Resources: []string{bktA + "/" + rapid.SampledFrom(narrow).Draw(t, "aimed_resource")}}
+		if rapid.Bool().Draw(t, "aimed_deny_first") {
+			c.Stmts = []model.Statement{deny, allow}
+		} else {
+			c.Stmts = []model.Statement{allow, deny}
+		}
+	}
 	if c.Spec.Op == "DeleteObjects" {
 		c.Keys = rapid.SliceOfNDistinct(rapid.SampledFrom([]string{"a", "b", "ab", "dir/a", "dir/b", "obj1"}), 1, 4, rapid.ID[string]).Draw(t, "keys")
 	}
